@@ -488,6 +488,11 @@ class OnionTor(SimTor):
         mids = ['ServiceID=' + sid]
         if generated is not None and 'DiscardPK' not in flags:
             mids.append('PrivateKey=' + generated)
+        elif generated is not None and self.sim.ch.chance(1, 6, 'keydespitediscard'):
+            # fault: whatever sits between us and Tor (a control-port filter that drops the flag, an odd Tor) sends the
+            # key although DiscardPK was asked for: the library sent the flag and must not keep what comes back
+            self.sim.fault('tor-sends-private-key-despite-DiscardPK')
+            mids.append('PrivateKey=' + generated)
         for name, cb in req['clients']:
             if cb is None:
                 cb = TOR_CLIENT_BLOBS[self.client_blob_used % len(TOR_CLIENT_BLOBS)]
@@ -1567,6 +1572,11 @@ class C14Run(OnionRun):
             pool = CLIENT_NAMES if ch.chance(1, 2, 'shortnames') else ['bo', 'x', 'alice', 'y2']
             c['clients'] = [(pool[k], CLIENT_BLOBS[k % len(CLIENT_BLOBS)] if ch.chance(1, 2, 'token') else None)
                             for k in range(n)]
+            if ch.chance(1, 25, 'manyclients'):
+                # basic authorization takes hundreds of clients (the limit of 16 is for stealth)
+                n = ch.pick([16, 17, 24, 64], 'manyclientsn')
+                c['clients'] = [('client%02d' % k, CLIENT_BLOBS[k % len(CLIENT_BLOBS)] if k % 3 == 0 else None) for k in range(n)]
+                self.sim.probe('basic-auth-with-more-than-16-clients')
         nports = 1 + ch.draw(3, 'nports')
         c['ports'] = []
         for k in range(nports):
